@@ -55,6 +55,7 @@ class Check:
         self.known_hits = []      # listed findings reproduced
         self.rules = {}           # rule -> {"instances": n, "min": m, "what": str}
         self.notes = []
+        self.deferred = []
         self.inventory = {}
         self.assumptions = []
         self.trusted_base = ["clang 14 front end (parser, template instantiation, overload/name resolution)",
@@ -97,6 +98,11 @@ class Check:
     def incomplete(self, msg):
         raise AnalysisIncomplete(msg)
 
+    def defer_incomplete(self, msg):
+        """An unknown shape that does not stop the other rules: no verdict (exit 2) at the end unless a violation was
+        found elsewhere (a violation is a verdict; 'cannot analyse' is not)."""
+        self.deferred.append(msg)
+
     def require(self, cond, msg):
         if not cond:
             raise AnalysisIncomplete(msg)
@@ -104,6 +110,8 @@ class Check:
     # ---- finishing
     def finish(self):
         # vacuity: a rule that matched fewer instances than confirmed by hand is an analysis failure
+        if self.deferred and not self.violations:
+            raise AnalysisIncomplete("; ".join(self.deferred)[:600])
         for r, d in self.rules.items():
             if d["instances"] < d["min"] and not self.violations:
                 raise AnalysisIncomplete("rule %s matched %d instance(s), frozen minimum is %d (%s)" % (
